@@ -1,9 +1,9 @@
 (* Model of strax/processing/statistics.py::highest_density_region (with _compute_hdr_core,
    _compute_fraction_seen, _compute_true_height, _process_intervals_numba).  Executable definitions
-   only; no theorems are stated about this model (correspondence only).
-   Samples are integers, fractions and amplitudes exact rationals.  The case "number of intervals
-   = _buffer_size + 1", in which _process_intervals_numba writes beyond its buffer, is not
-   modelled (the model returns the intervals). *)
+   only; the only theorem about this model is that returned intervals fit the result buffer
+   (Proof/HDRProof.v); everything else rests on correspondence.
+   Samples are integers, fractions and amplitudes exact rationals.  The buffer test is the repaired
+   `len(gaps) >= _buffer_size` (/repo commit 1da565c). *)
 From Coq Require Export QArith.
 From SV Require Export Base.Prelude Model.PeakHelpers Model.Merging.
 Open Scope Z_scope.
@@ -30,7 +30,7 @@ Fixpoint runs_from (s e : Z) (l : list Z) : list (Z * Z) :=
 Definition runs (l : list Z) : list (Z * Z) :=
   match l with [] => [] | x :: r => runs_from x (x + 1) r end.
 
-(* intervals: None = more than _buffer_size gaps (res[fi] filled with -1) *)
+(* intervals: None = len(gaps) >= _buffer_size, i.e. more than _buffer_size intervals (res[fi] = -1) *)
 Record hdr_out := mkho { ho_iv : option (list (Z * Z)); ho_amp : Q }.
 
 Fixpoint hdr_loop (data m2m : list Z) (area_tot : Z) (upper : bool) (bs : Z)
@@ -51,7 +51,7 @@ Fixpoint hdr_loop (data m2m : list Z) (area_tot : Z) (upper : bool) (bs : Z)
         | O => hdr_loop data m2m area_tot upper bs js' (Some v) fs
         | _ =>
             let ivs := runs (sort_z top) in
-            let iv := if zlen ivs - 1 >? bs then None else Some ivs in
+            let iv := if zlen ivs - 1 >=? bs then None else Some ivs in
             let outs := map (fun fd => let g := (fd / seen)%Q in
                                        mkho iv ((1 - g) * inject_Z S / inject_Z j + g * inject_Z low)%Q)
                             (firstn cnt fs) in
